@@ -824,86 +824,33 @@ private theorem count_freeOpt (f : List Nat) (o : Option Buf) (i : Nat) :
     (freeOpt f o).count i = (optId o).count i + f.count i := by
   cases o <;> simp [freeOpt, optId, List.count_cons]; omega
 
-/-- Tactic closing the typical goal: ownership moved between components. -/
-macro "own_tac" h:ident : tactic => `(tactic| (
-  intro i
-  have hi := $h i
-  simp only [owned, loopOwned, chanOwned, rxOwned, backOwned, optId, inHand, List.count_append,
-    List.count_cons, List.count_nil, List.filterMap_append, List.filterMap_cons, List.filterMap_nil,
-    List.map_append, List.map_cons, List.map_nil, msgBufId, count_freeOpt, beq_iff_eq] at hi ⊢
-  first | exact hi | omega | (rw [← hi]; omega)))
 
-theorem Own_step {P : Params} {A : Assembler} {script : List Item} {s s' : State} {a : Step}
-    (hp : PoolOK P s) (h : Own s) (hs : step P A script s a = some s') : Own s' := by
-  cases a <;> simp only [step] at hs
-  case checkCancel =>
-    unfold stepCheckCancel at hs
-    split at hs
-    · next hpc =>
-      split at hs <;> (injection hs with hs; subst hs) <;>
-        (intro i; have hi := h i; simpa [owned, loopOwned, chanOwned, rxOwned, backOwned, inHand, hpc] using hi)
-    · cases hs
-  case obtainReuse =>
-    unfold stepObtainReuse at hs
-    split at hs
-    · next hpc =>
-      simp only [PoolOK, hpc] at hp
-      split at hs
-      · next b hb =>
-        injection hs with hs; subst hs
-        intro i; have hi := h i
-        simpa [owned, loopOwned, chanOwned, rxOwned, backOwned, inHand, optId, hpc, hb, hp.2] using hi
-      · cases hs
-    · cases hs
-  case obtainBack =>
-    unfold stepObtainBack at hs
-    split at hs
-    · next hc =>
-      simp only [PoolOK, hc.1] at hp
-      split at hs
-      · next m rest hb =>
-        injection hs with hs; subst hs
-        intro i; have hi := h i
-        simp only [owned, loopOwned, chanOwned, rxOwned, backOwned, inHand, optId, hc.1, hc.2, hb, hp.2,
-          List.count_append, List.count_cons, List.count_nil, List.map_cons] at hi ⊢
-        omega
-      · cases hs
-    · cases hs
-  case obtainAlloc =>
-    unfold stepObtainAlloc at hs
-    split at hs
-    · next hc =>
-      simp only [PoolOK, hc.1] at hp
-      injection hs with hs; subst hs
-      intro i; have hi := h i
-      simp only [owned, loopOwned, chanOwned, rxOwned, backOwned, inHand, optId, hc.1, hc.2.1, hp.2,
-        List.count_append, List.count_cons, List.count_nil, beq_iff_eq] at hi ⊢
-      by_cases h1 : i < s.nextBuf
-      · rw [if_pos h1] at hi; rw [if_pos (by omega), if_neg (by omega)]; omega
-      · rw [if_neg h1] at hi
-        by_cases h2 : s.nextBuf = i
-        · rw [if_pos h2, if_pos (by omega)]; omega
-        · rw [if_neg h2, if_neg (by omega)]; omega
-    · cases hs
-  case submitOk =>
-    unfold stepSubmitOk at hs
-    split at hs
-    · next k hpc =>
-      split at hs
-      · split at hs <;> (injection hs with hs; subst hs) <;>
-          (intro i; have hi := h i; simpa [owned, loopOwned, chanOwned, rxOwned, backOwned, inHand, hpc] using hi)
-      · cases hs
-    · cases hs
-  case submitFail e =>
-    unfold stepSubmitFail at hs
-    split at hs
-    · next k hpc =>
-      simp only [PoolOK, hpc] at hp
-      split at hs
-      · -- `reuse` is empty while a buffer is in use: it was taken at `obtain`
-        sorry
-      · cases hs
-    · cases hs
-  all_goals sorry
+/-! ### Generic case split over all steps -/
+
+set_option hygiene false in
+/-- Unfold the step function of the current case, split every `if`/`match` of the hypothesis `hs`
+and substitute the successor state.  Leaves one goal per branch that returns `some _`. -/
+macro "step_split" : tactic => `(tactic| (
+  (first
+    | unfold stepCheckCancel at hs | unfold stepObtainReuse at hs | unfold stepObtainBack at hs
+    | unfold stepObtainAlloc at hs | unfold stepSubmitOk at hs | unfold stepSubmitFail at hs
+    | unfold stepPollOk at hs | unfold stepPollOverflow at hs | unfold stepPollFault at hs
+    | unfold stepPollPending at hs | unfold stepParse at hs | unfold stepTrySend at hs
+    | unfold stepCancelNext at hs | unfold stepReapOne at hs | unfold stepIterEnd at hs
+    | unfold stepExit at hs | unfold stepRxRecv at hs | unfold stepRxNone at hs
+    | unfold stepRxSendBack at hs | unfold stepRxDrop at hs | unfold stepRxClose at hs
+    | unfold stepStopCall at hs | unfold stepStopBlock at hs | unfold stepStopDisc at hs)
+  repeat' (first | split at hs | (dsimp only at hs; split at hs))
+  all_goals (first | (cases hs; done) | (injection hs with hs; subst hs))))
+
+/-- While the loop body owns a buffer, `payload_buf_opt` is empty (it was `take()`n). -/
+def ReuseOK (s : State) : Prop := s.cur.isSome = true → s.reuse = none
+
+theorem ReuseOK_init (P : Params) : ReuseOK (init P) := by simp [ReuseOK, init]
+
+theorem ReuseOK_step {P : Params} {A : Assembler} {script : List Item} {s s' : State} {a : Step}
+    (h : ReuseOK s) (hs : step P A script s a = some s') : ReuseOK s' := by
+  cases a <;> simp only [step] at hs <;> step_split <;>
+    simp_all [ReuseOK, applyData_cur_isSome]
 
 end CamVerif.StreamLoop
